@@ -15,7 +15,7 @@ sys.path.insert(0, os.path.dirname(os.path.abspath(__file__)))
 import vlib
 from vlib import MachineryFailure, BuildError, log
 
-EXACT_SOURCES = ["vh_main.cpp", "vh_support.cpp", "vh_spline.cpp"]
+EXACT_SOURCES = ["vh_main.cpp", "vh_support.cpp", "vh_spline.cpp", "vh_gen.cpp"]
 
 # ------------------------------------------------------------------ stateless families
 # family -> (MC spec, base cfg)
@@ -23,6 +23,7 @@ FAMILIES = {
     "Sup": ("MC_Sup", "MC_Sup.cfg"),
     "Spl": ("MC_Spl", "MC_Spl.cfg"),
     "Ops": ("MC_Ops", "MC_Ops.cfg"),
+    "Gen": ("MC_Gen", "MC_Gen.cfg"),
 }
 OPS_SOURCES = EXACT_SOURCES + ["vh_ops.cpp"]
 
@@ -52,6 +53,8 @@ def nontrivial(c):
     def iv(s):
         return isinstance(s, dict) and s.get("e", 0) - s.get("s", 0) >= 2
 
+    if op == "Gen":
+        return len(c["knots"]) > c["p"] + 1
     if op == "OpApply":
         return iv(c["a"])
     if op == "OpBF":
@@ -73,7 +76,7 @@ def case_key(c):
     def w(s):
         return (s.get("s"), s.get("e"), s.get("o"), len(s.get("g", []))) if isinstance(s, dict) else None
     return json.dumps([c.get("op"), w(c.get("a")), w(c.get("b")), w(c.get("c")), c.get("share"), c.get("top"), c.get("i"),
-                       c.get("ast"), c.get("e1"), c.get("e2"), [w(f) for f in c.get("fs", [])] if isinstance(c.get("fs"), list) else None])
+                       c.get("ast"), c.get("e1"), c.get("e2"), c.get("knots"), c.get("p"), c.get("route"), c.get("grid") if c.get("op") == "Gen" else None, [w(f) for f in c.get("fs", [])] if isinstance(c.get("fs"), list) else None])
 
 
 class Ctx:
@@ -153,7 +156,13 @@ def run_and_judge(ctx, family, binp, lines, view, confirm=True):
 
 # ------------------------------------------------------------------ properties
 def c13(ctx):
-    stateless(ctx, "Sup", {"SupRead", "SupIdx", "SupBin", "SupTri", "SupNew", "GridAt", "GridFind"})
+    stateless(ctx, "Sup", {"SupRead", "SupIdx", "SupBin", "SupTri", "SupNew", "GridAt", "GridFind", "GridNew"})
+
+
+def c11(ctx):
+    stateless(ctx, "Sup", {"SupNew", "GridNew"})
+    stateless(ctx, "Spl", {"SplNew", "SplLin"}, case_filter=lambda c: c["op"] == "SplNew" or len(c["cs"]) != len(c["ss"]) or len(c["ss"]) <= 1)
+    stateless(ctx, "Gen", {"Gen"}, case_filter=lambda c: c["p"] <= 2)
 
 
 def c03(ctx):
@@ -176,6 +185,10 @@ def c15(ctx):
     stateless(ctx, "Spl", {"SplUn", "SplBin"}, case_filter=same_grid)
 
 
+def c01(ctx):
+    stateless(ctx, "Gen", {"Gen"})
+
+
 def c04(ctx):
     stateless(ctx, "Ops", {"OpApply"}, case_filter=lambda c: c["tag"] == "prim")
 
@@ -193,12 +206,14 @@ def c07(ctx):
 
 
 PROPS = {
+    "C01": dict(fn=c01, level="model_checking"),
     "C04": dict(fn=c04, level="model_checking"),
     "C05": dict(fn=c05, level="model_checking"),
     "C06": dict(fn=c06, level="model_checking"),
     "C07": dict(fn=c07, level="model_checking"),
     "C02": dict(fn=c02, level="model_checking"),
     "C03": dict(fn=c03, level="model_checking"),
+    "C11": dict(fn=c11, level="model_checking"),
     "C13": dict(fn=c13, level="model_checking"),
     "C15": dict(fn=c15, level="model_checking"),
 }
